@@ -90,6 +90,8 @@ def work(item):
     if 'electron_shells' in el:
         shells = copy.deepcopy(el['electron_shells'])
         case('sort.sort_shells', sort.sort_shells, [shells])
+        case('sort.sort_shells(one)', sort.sort_shells, [copy.deepcopy(shells[:1])])
+        case('sort.sort_shells(none)', sort.sort_shells, [[]])
         case('sort.sort_shell', sort.sort_shell, [copy.deepcopy(shells[0])])
         case('manip.prune_shell', manip.prune_shell, [copy.deepcopy(shells[0])])
         case('manip.prune_shell(True)', manip.prune_shell, [copy.deepcopy(shells[0]), True])
@@ -99,6 +101,9 @@ def work(item):
     if 'ecp_potentials' in el:
         pots = copy.deepcopy(el['ecp_potentials'])
         case('sort.sort_potentials', sort.sort_potentials, [pots])
+        # short lists too: a function may take an early way out before it copies
+        case('sort.sort_potentials(one)', sort.sort_potentials, [copy.deepcopy(pots[:1])])
+        case('sort.sort_potentials(none)', sort.sort_potentials, [[]])
         case('compare.ecp_pots_are_equal', cmp.ecp_pots_are_equal, [copy.deepcopy(pots), copy.deepcopy(pots)])
     # merge_element_data: dest and sources
     if len(els) >= 2:
